@@ -454,6 +454,15 @@ func genC11(c *ctx) {
 		if f := unrelatedActivityOracle(true); f != "" {
 			st.Add(&cs.Case{Coq: "(KSkip [] false 0%N)", Desc: map[string]any{"op": "held encodings of several KiB while other tokens are encoded"}, Class: "held-bytes", Nontrivial: true, OracleFail: f})
 		}
+		if f := repeatedFieldReencodeOracle(); f != "" {
+			st.Add(&cs.Case{Coq: "(KSkip [] false 0%N)", Desc: map[string]any{"op": "tokens sent as maps with repeated field names: verdict before and after re-encoding"}, Class: "repeated-fields", Nontrivial: true, OracleFail: f})
+		}
+		if f := staleNonceForgeryOracle(); f != "" {
+			st.Add(&cs.Case{Coq: "(KSkip [] false 0%N)", Desc: map[string]any{"op": "old-format token, Nonce field twice"}, Class: "repeated-fields", Nontrivial: true, OracleFail: f})
+		}
+		if f := nilKeyIDOracle(); f != "" {
+			st.Add(&cs.Case{Coq: "(KSkip [] false 0%N)", Desc: map[string]any{"op": "nil / empty key-id round trip"}, Class: "nil-kid", Nontrivial: true, OracleFail: f})
+		}
 		if f := callerSliceOracle(); f != "" {
 			st.Add(&cs.Case{Coq: "(KSkip [] false 0%N)", Desc: map[string]any{"op": "NewCaveatSet and the caller's list"}, Class: "caller-slice", Nontrivial: true, OracleFail: f})
 		}
